@@ -8,14 +8,14 @@ MATCH = r"match_node_with_env"
 OPS_DECIDED_C04 = "frame law on trait Matcher (None => env unchanged; Some => env exactly the reference env) proved for &T, MatchAll, MatchNone, Op, Or, Not, And, All, Any"
 PROPS = {
     "C01": {
-        "units": [("ops", KINDS), ("rule_core", KINDS + "|do_match|with_"), ("rule", KINDS), ("combined", r"CombinedScan|lemma")],
+        "units": [("ops", KINDS), ("rule_core", KINDS + "|do_match|with_"), ("rule", KINDS), ("combined", r"CombinedScan|lemma"), ("pattern", KINDS + "|match_node_impl|match_node_non_recursive")],
         "kani": [],
         "decided": ["potential_kinds of every matcher in ops.rs/matcher.rs over-approximates the kinds of nodes it can match (trait-level ensures); All/Any cached kinds sound (type invariant established by new via compute_kinds)"],
         "not_decided": ["run.rs/scan.rs wiring, injected languages, ordering across files"],
         "assumptions": [],
     },
     "C03": {
-        "units": [("strictness", r"^(?!<Cow as Aggregator>::match_meta_var)")],
+        "units": [("strictness", r"^(?!<Cow as Aggregator>::match_meta_var)"), ("pattern", r"match_node_impl|match_node_non_recursive|get_match_len")],
         "kani": [],
         "decided": ["match_terminal == the documented strictness table (kinds agree incl. ERROR wildcard; named terminals need equal text except under signature; only unnamed / comment candidates are ever skipped; only unnamed goal terminals are skipped)",
                     "should_skip_trailing table", "named holes bind only named nodes (match_leaf_meta_var)",
@@ -25,9 +25,9 @@ PROPS = {
         "assumptions": ["MetaVarEnv::insert / insert_multi obey the statements in prelude/env_ops.rs"],
     },
     "C04": {
-        "units": [("ops", MATCH), ("rule_core", MATCH + "|do_match"), ("rule", MATCH + "|match_and_add_label")],
+        "units": [("ops", MATCH), ("rule_core", MATCH + "|do_match"), ("rule", MATCH + "|match_and_add_label"), ("pattern", MATCH)],
         "kani": [],
-        "decided": [OPS_DECIDED_C04],
+        "decided": [OPS_DECIDED_C04, "Pattern::match_node_with_env commits bindings only when the pattern matches (scratch Cow)"],
         "not_decided": ["relational rules / ReferentRule / StopBy::find (closures capturing &mut env): frame assumed"],
         "assumptions": [],
     },
